@@ -12,4 +12,10 @@ TEXT = {
                     "classes x types and on item streams every run.",
             "note": COMMON_NOTE + "io.ReadFull/io.CopyN are modelled by their contract on an in-memory reader."},
 }
+TEXT["C13"] = {
+    "text": "Theorems relating the model of deterministic.go (index arithmetic, int conversions, fuel) to an inductive "
+            "definition of RFC 8949 core-deterministic item sequences, plus termination; model compared with the real "
+            "checker on all byte strings of length <=2 (<=3 thorough), small-alphabet sweeps and mutated nested items.",
+    "note": COMMON_NOTE + "A Go panic and an error are both 'not accepted' (the repo's own tests require panics on "
+            "under-populated arrays/maps); Go stack depth of the recursion is not modelled."}
 NOT_YET = {}
